@@ -128,7 +128,7 @@ def derive_nodes(P, gr, e, s, i, nodes, k, memo):
             frontier = nxt
             if n > mn + len(s) + len(nodes) + 2:
                 break
-    elif kind == "ref":
+    elif kind == "ref" and e[1] < len(gr):
         name, body, _ = gr[e[1]]
         if k < len(nodes) and not isinstance(nodes[k], P.LiteralNode) and nodes[k].name == name:
             ch = nodes[k].children
